@@ -141,7 +141,9 @@ CLAIMED.update({
               "children, recorded writer) is run alone in a freshly started worker process, then inside a long-lived worker that has "
               "already built and run thousands of unrelated graphs, with its builder reused up to 4 times and up to 8 executors running "
               "simultaneously on threads; every run's complete event trace and recorded buffers must be byte-identical to the fresh run. "
-              "Overlap of the run() intervals is measured and reported."),
+              "Overlap of the run() intervals is measured and reported. In a further stage the main thread holds a GlobalContext over "
+              "a state of its own while worker threads wire, build and run programs (optionally inside their own context): same traces, "
+              "the host's key never visible in those runs, the host's state untouched."),
         technique="property-based testing: differential (fresh process vs history / builder reuse / concurrent threads) over full traces",
         ref="DESIGN.md §5 C07", note=NOTE_COMMON + " Thread interleavings are sampled by the OS, not enumerated; a race that changes no output is invisible. Wiring, make_executor and release stay on one thread (the supported usage)."),
     "C14": dict(
